@@ -19,6 +19,7 @@ type NativeModel struct {
 	Holes     map[string]map[string][]string `json:"holes"`
 	BoolHoles map[string][]bool              `json:"bool_holes"`
 	Params    map[string]string              `json:"params"`
+	HolePos   map[string]map[string][][2]string `json:"hole_pos"` // line -> "leaf"|"key" -> [path,class]
 }
 
 type NativeCase struct {
@@ -142,7 +143,7 @@ func BuildNativeModel(job *Job, inputs map[string]Value, mod *Model) *NativeMode
 		bools := map[string]bool{}
 		nm.Holes[ln] = map[string][]string{}
 		for _, h := range tpl.Holes {
-			key := ln + "." + h.Name
+			key := holeKey(job, ln, h.Name, h.Class)
 			if h.Class == "B" {
 				bools[h.Name] = nm.Bools[key]
 				nm.BoolHoles[ln] = append(nm.BoolHoles[ln], nm.Bools[key])
@@ -159,6 +160,17 @@ func BuildNativeModel(job *Job, inputs map[string]Value, mod *Model) *NativeMode
 			nm.Holes[ln][h.Class] = append(nm.Holes[ln][h.Class], v)
 		}
 		nm.Lines[ln] = tpl.Instantiate(strs, bools)
+		if nm.HolePos == nil {
+			nm.HolePos = map[string]map[string][][2]string{}
+		}
+		nm.HolePos[ln] = map[string][][2]string{"leaf": {}, "key": {}}
+		for _, hp := range tpl.HolePositions() {
+			k := "leaf"
+			if hp.IsKey {
+				k = "key"
+			}
+			nm.HolePos[ln][k] = append(nm.HolePos[ln][k], [2]string{hp.Path, hp.Class})
+		}
 	}
 	return nm
 }
